@@ -12,8 +12,9 @@ import (
 )
 
 type histoPair struct {
-	key string
-	val int64
+	key  string
+	val  int64
+	used bool // the line has been written (a zero pair is otherwise indistinguishable from an unused line)
 }
 
 type HistoWriter struct {
@@ -65,15 +66,13 @@ func (s *HistoWriter) WriteForLine(line int, key string, val int64) {
 	}
 
 	s.items[line] = histoPair{
-		key: key,
-		val: val,
+		key:  key,
+		val:  val,
+		used: true,
 	}
 
 	if needsFullRefresh {
 		s.fullRender()
-		if val <= 0 { // fullRender leaves out rows without a positive value
-			s.writeLine(line, key, val)
-		}
 	} else {
 		s.writeLine(line, key, val)
 	}
@@ -86,7 +85,7 @@ func (s *HistoWriter) UpdateTotal(total int64) {
 
 func (s *HistoWriter) fullRender() {
 	for idx, item := range s.items {
-		if item.val > 0 {
+		if item.used { // every written row, also those whose value is zero or negative
 			s.writeLine(idx, item.key, item.val)
 		}
 	}
